@@ -23,7 +23,46 @@ CM = A + "execution::commitment::"
 EX = A + "execution::"
 
 
+def ob_finalize_retention(run, oid):
+    """DummyExecution::finalize: which tracked blocks survive"""
+    from engine import paths
+    prog = run.program("lib")
+    o = run.ob(oid, "finalize keeps every tracked block whose slot is >= the finalized slot - in particular the finalized block itself - whatever way it arrived (pending or known by hash)",
+               "a child that begins after finalize is seeded from the parent's tracked commitment; dropping the parent's entry for one kind of arrival makes the child's commitment depend on how "
+               "the parent was delivered", floor=2)
+    fam = [b for b in prog.family("<" + EX + "DummyExecution as " + EX + "ExecutionEngine>::finalize")]
+    cl = [b for b in fam if b.is_closure]
+    rets = [c for b in fam for c in b.calls() if c.name.rsplit("::", 1)[-1] == "retain" and K.mentions_field(b.operand_term(c.args[0]), "blocks")]
+    o.check(len(rets) == 1 and len(cl) == 1, "finalize|retain", "one retain over the tracked blocks", fam[0].span if fam else "")
+    for b in cl:
+        rows = paths.decision_table(b, prog)
+        bad = []
+        for atoms, ret, _bl in rows:
+            other = [a for a in atoms if not D.is_structural_atom(a)]
+            if other:
+                bad.append("depends on %s" % G.atoms_show(other)[:2])
+                continue
+            t = K.peel(ret) if ret is not None else None
+            ok = False
+            if isinstance(t, tuple) and t and t[0] == "call" and len(t[2]) == 2:
+                op = t[1].rsplit("::", 1)[-1]
+                a0, a1 = t[2]
+                is_slot = lambda x: K.mentions_call(x, "slot") and K.mentions(x, lambda y: y[0] == "param")
+                is_fin = lambda x: K.mentions(x, lambda y: y[0] == "upvar") and not K.mentions(x, lambda y: y[0] == "param")
+                ok = (op == "ge" and is_slot(a0) and is_fin(a1)) or (op == "le" and is_fin(a0) and is_slot(a1))
+            if not ok:
+                bad.append("keeps when %s" % (mir.show(t)[:70] if t is not None else None))
+        o.check(not bad and bool(rows), "finalize|keeps-from-finalized-slot", "kept iff entry.slot() >= finalized slot, for every kind of entry", b.span, {"problems": bad[:3]})
+
+
 def check(run):
+    ob_finalize_retention(run, "O20.10")
+    from . import detectors as _DC
+    _DC.ob_narrowing_casts(run, "O20.9", ['execution::'], 'trie chunk indices and bitmap positions are small by construction (masked); anything else that is narrowed loses key bits')
+    from . import detectors as _DS
+    _DS.ob_structural_impls(run, "O20.8", ['execution::', 'crypto::hash'], 'state commitments and account keys are compared and ordered structurally: a partial comparison merges distinct states')
+    from . import detectors as _DL
+    _DL.ob_loop_exits(run, "O20.7", ['execution'], 'trie walks and per-transaction loops visit every element: a loop that stops early gives a state that depends on iteration order')
     D.ob_state_mutations(run, "O20.4", ['execution::DummyExecution', 'execution::BlockExec'], 'block execution records are written once per block and folded in order')
     prog = run.program("lib")
     ob_trie_lookup(run, "O20.5")
@@ -462,6 +501,63 @@ def _is_low_mask_count(t, is_chunk):
     return m is not None and _is_bit(m[2], is_chunk) and K.const_eval(m[3]) == 1
 
 
+def _chunk_at_by_value(prog, ca, o, bits):
+    """evaluate chunk_at(key, depth) - every path of it - for every depth of a 32-byte key and a set of keys, and compare with the
+    definition: the depth-th BITS_PER_LEVEL-bit chunk of the key read as a big-endian bit string, zero padded at the end"""
+    import hashlib
+    from engine import paths
+    from . import termeval as TE
+    if not bits:
+        return
+    rows = paths.decision_table(ca, prog)
+    keys = [bytes([0xff] * 32), bytes([0xaa] * 32), bytes([0x55] * 32), bytes(range(32)), bytes([0x08] * 32), bytes([0x01] * 32), bytes([0x80] * 32)]
+    keys += [hashlib.sha256(b"chunk_at-%d" % i).digest() for i in range(9)]
+    ndepth = (32 * 8 + bits - 1) // bits
+    bad = []
+    undecided = None
+    n = 0
+    for key in keys:
+        total = int.from_bytes(key, "big") << (ndepth * bits - 256)
+        for depth in range(ndepth):
+            want = (total >> ((ndepth - 1 - depth) * bits)) & ((1 << bits) - 1)
+
+            def env(t, key=key, depth=depth):
+                if isinstance(t, tuple) and t and t[0] == "param":
+                    return list(key) if t[1] == 1 else depth
+                return None
+            got = []
+            try:
+                for atoms, ret, _bl in rows:
+                    if ret is None:
+                        continue
+                    holds = True
+                    for a in atoms:
+                        if D.is_structural_atom(a) and a[0] != "bool":
+                            continue
+                        v = TE.ev_atom(a[0], a[1], env)
+                        if v != a[2]:
+                            holds = False
+                            break
+                    if holds:
+                        got.append(TE.ev(ret, env))
+            except TE.Unknown as e:
+                undecided = str(e)[:120]
+                break
+            except TE.Overflow as e:
+                bad.append("depth %d: panics (%s)" % (depth, e))
+                continue
+            n += 1
+            if not got or any(g != want for g in got):
+                bad.append("key %s.. depth %d: chunk_at = %s, the key's chunk is %d" % (key[:4].hex(), depth, got[:2], want))
+        if undecided:
+            break
+    if undecided:
+        o.fail("chunk_at|by-value|undecided", "chunk_at could not be evaluated (%s): failing closed" % undecided, ca.span)
+    else:
+        o.check(not bad and n >= len(keys) * ndepth, "chunk_at|by-value", "chunk_at(key, d) equals the d-th %d-bit chunk of the key for all %d depths and %d keys (every path evaluated)" % (bits, ndepth, len(keys)),
+                ca.span, {"mismatches": bad[:4], "evaluated": n})
+
+
 def ob_trie_arith(run, oid):
     prog = run.program("lib")
     o = run.ob(oid, "trie arithmetic: len bookkeeping, bitmap <-> children index agreement across child_index / insert_child / remove_child, chunk_at extracts "
@@ -593,6 +689,7 @@ def ob_trie_arith(run, oid):
                         o.check(hi_ok, "chunk_at|high-byte", "window high byte = key[(depth*BITS_PER_LEVEL) / 8] << 8", ca.span)
                         o.check(lo_ok, "chunk_at|low-byte", "window low byte = key.get((depth*BITS_PER_LEVEL) / 8 + 1) or 0 (zero padding of the last chunk)", ca.span)
         o.check(ok, "chunk_at|mask", "result = (window >> shift) & (FANOUT - 1)", ca.span, det)
+        _chunk_at_by_value(prog, ca, o, bits)
     # len bookkeeping
     ib = prog.body(ST + "State::insert")
     if ib is not None:
